@@ -450,6 +450,20 @@ func (c *compiler) detectCircularReferences() error {
 	return nil
 }
 
+// hasSplitterChild reports whether any split of the node still points at
+// another splitter node, i.e. the node has not been flattened yet.
+func (c *compiler) hasSplitterChild(node *structs.DiscoveryGraphNode) bool {
+	for _, split := range node.Splits {
+		if next := c.nodes[split.NextNode]; next != nil && next.Type == structs.DiscoveryGraphNodeTypeSplitter {
+			return true
+		}
+	}
+	return false
+}
+
+// flattenAdjacentSplitterNodes inlines nested splitters bottom-up: an inner
+// splitter is only inlined once it is flat itself, so that the rounded weights
+// do not depend on the iteration order of the c.nodes map.
 func (c *compiler) flattenAdjacentSplitterNodes() error {
 	for {
 		anyChanged := false
@@ -463,6 +477,14 @@ func (c *compiler) flattenAdjacentSplitterNodes() error {
 			for _, split := range node.Splits {
 				nextNode := c.nodes[split.NextNode]
 				if nextNode.Type != structs.DiscoveryGraphNodeTypeSplitter {
+					fixedSplits = append(fixedSplits, split)
+					continue
+				}
+				if c.hasSplitterChild(nextNode) {
+					// Not flat yet; inline it in a later pass. The graph is
+					// acyclic (see detectCircularReferences), so the innermost
+					// nested splitter is flattened in this pass and the loop
+					// keeps going until every level has been inlined.
 					fixedSplits = append(fixedSplits, split)
 					continue
 				}
